@@ -156,7 +156,9 @@ def generate(rng, i, tier):
         "policy": rng.choice([["collect"], ["collect", "fail"], ["fail"], ["collect", "print"], ["collect", "fail", "print", "quiet"], ["collect", "stop"], ["collect", "fail", "stop"]]),
         # an earlier run of ANOTHER group on the same instance in which a member executed a cross-path signal:
         # nothing of it may leak into the verdicts of the run under test
-        "prelude": {"method": rng.choice(ops.METHODS), "signal": rng.choice(["fail_all()", "fail_all()", "stop_all()", "skip_all()", "advance_all(2)"])} if rng.random() < 0.2 else None,
+        "prelude": {"method": rng.choice(ops.METHODS), "signal": rng.choice(["fail_all()", "fail_all()", "stop_all()", "skip_all()", "advance_all(2)"]),
+                    # the instance may have been created (and the earlier run made) while config.ini held ANOTHER error policy
+                    "policy_then": rng.choice([None, None, ["collect"], ["collect", "fail"], ["collect", "fail", "stop"], ["print"]])} if rng.random() < 0.2 else None,
     }
 
 
@@ -298,11 +300,13 @@ def execute(sc):
                 out.runs += 1
                 got.append({"cp": cp, "result_valid": None})
         else:
+            pre = sc.get("prelude")
+            if pre and pre.get("policy_then"):
+                w.write_config(csvpath_policy=pre["policy_then"])
             cs = ops.new_csvpaths()
             with ops.quiet():
                 cs.file_manager.add_named_file(name="f", path="src/f.csv")
                 cs.paths_manager.add_named_paths(name="g", paths=[member_text(m, j, dup=bool(sc.get("dup_ids"))) for j, m in enumerate(members)])
-            pre = sc.get("prelude")
             if pre:
                 with ops.quiet():
                     cs.paths_manager.add_named_paths(name="p", paths=[f"~id:p0~ $[*][ line_number() == 1 -> {pre['signal']} ]", "~id:p1~ $[*][ yes() ]"])
@@ -311,6 +315,11 @@ def execute(sc):
                 out.runs += 1
                 out.fault("instance_reuse")
                 out.probe("run after an earlier run that used a cross-path signal on the same instance")
+                if pre.get("policy_then"):
+                    # config.ini is edited between the two runs: the run under test is made under sc["policy"]
+                    w.write_config(csvpath_policy=sc["policy"])
+                    out.fault("config_edit")
+                    out.probe("error policy in config.ini changed between two runs on one instance")
                 extfuncs.arm(plan=plan, monitor=monitor)
             seen = {"n": 0}
 
@@ -421,6 +430,7 @@ def execute(sc):
         out.extra["online_checks"] = online["checks"]
         out.extra["manager_polls_midrun"] = online.get("mgr_polls", 0)
         out.probe("run after an earlier run that used a cross-path signal on the same instance", False)
+        out.probe("error policy in config.ini changed between two runs on one instance", False)
         out.probe("members sharing one identity", bool(sc.get("dup_ids")))
         out.probe("member with explain-mode", any(m.get("explain") for m in members))
         out.probe("member whose scan selects no line", any(m.get("scan", "*") != "*" for m in members))
